@@ -623,7 +623,7 @@ class Interp:
                 return Builtin("ndarray.tolist", lambda _v=v: _v.flat() if _v.ndim == 1 else [_v.data.get(i) for i in _v.indices()])
             if name in ("transpose", "reshape", "tobytes", "copy", "flatten"):
                 return Builtin(f"ndarray.{name}", lambda *a, _v=v, _n=name, **k: self._arr_method(_v, _n, a, k))
-        elif isinstance(v, (str, list, dict, tuple)):
+        elif isinstance(v, (str, list, dict, tuple, set, frozenset)):
             return self._pymethod(v, name)
         elif isinstance(v, (bytes, bytearray)):
             if name in ("ljust", "rjust", "decode", "hex", "startswith", "endswith", "find", "count", "split", "strip", "rstrip"):
@@ -1255,6 +1255,28 @@ class Interp:
         raise AnalysisError(f"peval: subscript of {c!r} at `{norm(node)[:60] if node is not None else ''}`")
 
     def binop(self, op, a, b, node=None):
+        if (isinstance(a, SArr) or isinstance(b, SArr)) and isinstance(op, (ast.Add, ast.Sub, ast.Mult)):
+            # elementwise arithmetic of an array with a scalar / an array of the same shape (numpy semantics)
+            A_, B_ = a, b
+            if isinstance(A_, SArr) and isinstance(B_, SArr):
+                if A_.sym is not None or B_.sym is not None or A_.shape != B_.shape:
+                    raise AnalysisError("peval: arithmetic of arrays of different / symbolic shape")
+                out = SArr(A_.shape)
+                for idx in out.indices():
+                    out.data[idx] = self.binop(op, A_.data.get(idx, Opaque("uninit")), B_.data.get(idx, Opaque("uninit")), node)
+                return out
+            arr, left = (A_, True) if isinstance(A_, SArr) else (B_, False)
+            other = B_ if left else A_
+            if arr.sym is not None or topoly(other) is None and not isinstance(other, float):
+                raise AnalysisError(f"peval: arithmetic of an array with {other!r}")
+            out = SArr(arr.shape)
+            for idx in out.indices():
+                x = arr.data.get(idx, Opaque("uninit"))
+                out.data[idx] = self.binop(op, x, other, node) if left else self.binop(op, other, x, node)
+            for at in ("itemsize", "dt"):
+                if getattr(arr, at, None) is not None:
+                    setattr(out, at, getattr(arr, at))
+            return out
         pa, pb = topoly(a), topoly(b)
         if pa is not None and pb is not None:
             if isinstance(op, ast.Add):
@@ -1469,6 +1491,14 @@ class Interp:
             if name in ("endswith", "startswith", "upper", "lower", "strip", "split", "capitalize", "replace", "splitlines", "rstrip", "lstrip", "format", "find", "rfind", "rsplit", "partition", "rpartition", "index", "rindex",
                         "count", "encode", "isdigit", "isidentifier", "isalpha", "isalnum", "isspace", "title", "ljust", "rjust", "zfill", "center", "removeprefix", "removesuffix", "expandtabs", "casefold", "swapcase", "isupper", "islower"):
                 return Builtin(f"str.{name}", lambda *a, **k: getattr(v, name)(*a, **k))
+        if isinstance(v, (set, frozenset)):
+            if name in ("union", "intersection", "difference", "symmetric_difference", "issubset", "issuperset", "isdisjoint", "copy"):
+                return Builtin(f"set.{name}", lambda *a, _m=getattr(v, name): _m(*[x if isinstance(x, (set, frozenset)) else self.iterate(x) for x in a]))
+            if name in ("add", "discard", "remove", "update", "clear", "pop"):
+                return Builtin(f"set.{name}", lambda *a, _m=getattr(v, name): _m(*[(self.iterate(x) if name == "update" and not isinstance(x, (set, frozenset)) else x) for x in a]))
+        if hasattr(type(v), name):
+            # the real type has this method, the interpreter's model does not: a gap of the model, not an error of the program
+            raise AnalysisError(f"peval: {type(v).__name__}.{name} is not modelled")
         raise PyExc("AttributeError", f"{type(v).__name__}.{name}")
 
     def _isinstance(self, v, c):
